@@ -127,6 +127,33 @@ def receiver_roots(b, ex, e, ty, _seen=None):
     return out
 
 
+def _split_part(e):
+    """"first" / "rest" if e is the `.0` / `.1` component of the payload of `slice.split_first()`."""
+    e = strip_refs(e)
+    if e[0] == "field" and e[2] in ("0", "1"):
+        p = strip_refs(e[1])
+        if p[0] == "field" and p[2] == "0" and p[1][0] == "downcast" and p[1][2] == "Some":
+            c = strip_refs(p[1][1])
+            if c[0] == "call" and (c[1].endswith("::split_first") or c[1].endswith("::split_first_mut")):
+                return "first" if e[2] == "0" else "rest"
+    return None
+
+
+def element_index(e):
+    """k if the expression denotes element k of a vector / slice (`v[k]` with constant k, the head of
+    `split_first()`, the payload of `first()`); None otherwise."""
+    e = strip_refs(e)
+    if e[0] == "call" and (e[1].endswith("::index") or e[1].endswith("::index_mut")) and len(e[2]) == 2:
+        return _const_usize(e[2][1])
+    if _split_part(e) == "first":
+        return 0
+    if e[0] == "field" and e[2] == "0" and e[1][0] == "downcast" and e[1][2] == "Some":
+        c = strip_refs(e[1][1])
+        if c[0] == "call" and (c[1].endswith("::first") or c[1].endswith("::first_mut")):
+            return 0
+    return None
+
+
 def _const_usize(e):
     e = strip_refs(e)
     return e[1] if e[0] == "const" and isinstance(e[1], int) and not isinstance(e[1], bool) else None
@@ -164,6 +191,12 @@ def iter_start_offset(ex, it):
                 return None
         elif c.endswith("::into_iter") or c.endswith("::iter") or c.endswith("::iter_mut"):
             seen_source = True
+            # iterating the tail of `split_first()`: `(first, rest) = v.split_first()?; for x in rest`
+            a0 = strip_refs(y[2][0]) if y[2] else None
+            if a0 is not None and _split_part(a0) == "rest":
+                off += 1
+        elif c.endswith("::split_first") or c.endswith("::split_first_mut"):
+            pass
         elif c.endswith("::deref") or c.endswith("::deref_mut") or c.endswith("::as_slice") or c.endswith("::as_mut_slice") or c.endswith("::next"):
             pass
         elif any(c.endswith(s) for s in ("::filter", "::rev", "::step_by", "::take", "::skip_while", "::take_while", "::filter_map", "::chain", "::zip")):
